@@ -370,4 +370,37 @@ theorem spec_frame_loop_adds_no_c14_on_model (cfg : Cfg) (ok : CfgOK cfg) (hfuel
     (hn : Spec.NoErr "C14" a) : Spec.NoErr "C14" (Spec.roundBody.go cfg a reads (Spec.splitRd E).2 fuel) :=
   readAll_go_c14 ok hfuel hperm hmt reads a s sQ E fuel inv hwf hlen q hQ he hn
 
+/-- **PARTIAL — the model meets the Spec for C14, for configurations that do not forward INFO log lines** (`20 <
+cfg.logLevel`; the default level is 100).  Run the model on any well-formed history, hand the Spec the history and the events
+the model wrote, round by round: the Spec's verdict contains no C14 entry.  The hypothesis on the log level is there for
+one reason: with INFO lines forwarded, the accept branch of a round writes messages before the round's poll, and for a
+round that accepts a connection and reads nothing the C14 clause of `Spec.checkDepartures` is too strict as written (it
+flags the model's own, correct, run: report, `defect_2`); everything else — every frame, the periodic section, the
+assembly over rounds and the whole-log clause — is linked without it (`spec_frame_loop_adds_no_c14_on_model`,
+`spec_notice_origin_clause_passes_on_model`, `spec_guard_clause_passes_on_model`). -/
+theorem model_meets_spec_c14_partial (cfg : Cfg) (ok : CfgOK cfg) (hfuel : cfg.fuel = 0) (hperm : OrdPerm cfg)
+    (hmt : cfg.mtClosed ≠ cfg.allTypes) (hlog : 20 < cfg.logLevel) (rs : List Round) (hwf : RoundsWF rs) :
+    Spec.NoErr "C14" (Spec.runSpec cfg rs (modelObs cfg rs) none) := by
+  have hord : OrdOK cfg := ordOK_of_perm hperm
+  unfold Spec.runSpec
+  simp only [modelObs, List.drop_succ_cons, List.drop_zero, List.length_cons, modelRounds_length, Option.isSome_none,
+    Bool.or_false, beq_self_eq_true]
+  have h0 : Spec.NoErr "C14" (({} : Spec.A).chk true "C03" "the manager did not play every round of the script") := by
+    intro e he; cases he
+  have inv0 := init_sim ok hfuel hmt hord
+  obtain ⟨_, _, hflat⟩ := rounds_ok ok hfuel hperm hmt rs
+    (({} : Spec.A).chk true "C03" "the manager did not play every round of the script") (init cfg) inv0 hwf
+  have h1 := rounds_c14 ok hfuel hperm hmt hlog rs
+    (({} : Spec.A).chk true "C03" "the manager did not play every round of the script") (init cfg) inv0 hwf h0
+  have hall : ((init cfg).out :: modelRounds cfg (init cfg) rs).flatten = (run cfg rs).out := by
+    rw [List.flatten_cons]; exact hflat
+  rw [hall]
+  unfold Spec.NoErr
+  rw [spec_guard_clause_passes_on_model]
+  exact (Spec.checkC05_ext _ _ _).noErr (by simp) h1
+
+/-- non-vacuity: the default configuration satisfies every side condition -/
+example : CfgOK ({} : Cfg) ∧ ({} : Cfg).fuel = 0 ∧ ({} : Cfg).mtClosed ≠ ({} : Cfg).allTypes ∧ 20 < ({} : Cfg).logLevel := by
+  refine ⟨⟨by decide, by decide, by decide, fun _ _ h => h⟩, rfl, by decide, by decide⟩
+
 end Pyrtma.C14
